@@ -180,7 +180,8 @@ func checkMarshalCallSitesRule(p *Prog, r *Report, mr *ssa.Function, rule string
 			continue
 		}
 		r.fn(name)
-		eachInstr(f, func(ins ssa.Instruction) {
+		// the function and the phase helpers it calls
+		eachInstrOf(append([]*ssa.Function{f}, stringHelpers(f)...), func(ins ssa.Instruction) {
 			c, ok := ins.(*ssa.Call)
 			if !ok || c.Common().StaticCallee() != mr {
 				return
@@ -295,6 +296,40 @@ func checkDataShape(p *Prog, r *Report, f *ssa.Function) {
 			r.decide(good, "C04.data-shape", "MarshalResource:to-many-data", p.pos(mu.Pos()), "data is the list built by appending one identifier per ID", "the to-many data member is not the list of identifiers built from the ID list")
 			return
 		}
+		// the member may be built by a helper: each of its returns is then held
+		// to the same rule
+		if hc, isCall := mu.Value.(*ssa.Call); isCall {
+			if g := hc.Common().StaticCallee(); g != nil && smallHelper(g) {
+				good, nret := true, 0
+				for _, b := range g.Blocks {
+					ret, ok := b.Instrs[len(b.Instrs)-1].(*ssa.Return)
+					if !ok || len(ret.Results) != 1 {
+						continue
+					}
+					nret++
+					ie := 0
+					for _, ef := range expandFacts(factsAt(b)) {
+						bo, ok := ef.Cond.(*ssa.BinOp)
+						if !ok || (bo.Op != token.NEQ && bo.Op != token.EQL) {
+							continue
+						}
+						if s0, ok := constString(bo.Y); ok && s0 == "" {
+							if (bo.Op == token.EQL) == ef.Truth {
+								ie = 1
+							} else {
+								ie = -1
+							}
+						}
+					}
+					isNil := isNilConst(ret.Results[0])
+					if !((ie == 1 && isNil) || (ie == -1 && !isNil)) {
+						good = false
+					}
+				}
+				r.decide(good && nret >= 2, "C04.data-shape", "MarshalResource:to-one-data:"+p.describe(mu), p.pos(mu.Pos()), "the helper returns null exactly when the related ID is empty", "a to-one data member is null for a non-empty ID or an identifier for an empty one")
+				return
+			}
+		}
 		// to-one: nil const on the id == "" edge, a map literal otherwise
 		idEmpty := 0
 		for _, ef := range expandFacts(factsAt(mu.Block())) {
@@ -314,7 +349,7 @@ func checkDataShape(p *Prog, r *Report, f *ssa.Function) {
 		good := (idEmpty == 1 && isNil) || (idEmpty == -1 && !isNil)
 		r.decide(good, "C04.data-shape", "MarshalResource:to-one-data:"+p.describe(mu), p.pos(mu.Pos()), "null exactly when the related ID is empty", "a to-one data member is null for a non-empty ID or an identifier for an empty one")
 	})
-	r.floor("data member stores", n, 3)
+	r.floor("data member stores", n, 2)
 }
 
 // checkRelDataKey: in MarshalResource every lookup in the relationship-data
